@@ -133,7 +133,8 @@ OvSets ==
 \* marks a store carries when it was analysed earlier
 AnalysedMarks(B) == AnalyzeIdeal(B, {})
 
-InPart(skip, func) == ((IF skip THEN 2 ELSE 0) + (IF func THEN 1 ELSE 0)) % Parts = Part
+\* Parts = 2: part 1 = skip_extract_dump; Parts = 4: parts 1, 3
+InPart(skip, func) == ((IF func THEN 2 ELSE 0) + (IF skip THEN 1 ELSE 0)) % Parts = Part
 
 ScenOK(b, an, skip, d) == (skip => d = "D0") /\ (b = "B0" => ~an)
 InitWith(b, an, skip, func, d, hasOv, srcs) ==
